@@ -59,6 +59,41 @@ Definition chk_mgr (c : mgr_case) : bool :=
   let '(rss, md, evs) := c in
   match mgr_init rss md with Ok m => run_mev m evs | Error _ => false end.
 
+(* DEHB bracket manager events *)
+Inductive dev :=
+  | DMNext (bid : nat) (s : slot_in_rung)
+  | DMRet (bid : nat) (s : slot_in_rung) (ok : bool) (out : option (list tid))
+  | DMSize (bid : nat) (n : nat)
+  | DMTop (bid pos : nat) (t : tid)
+  | DMParent (bid : nat) (lv : Z) (si : nat) (t : tid)
+  | DMParentErr (bid : nat) (lv : Z) (si : nat).
+Fixpoint run_dev (m : mgr) (evs : list dev) : bool :=
+  match evs with
+  | [] => true
+  | DMNext bid s :: r =>
+      match dehb_next_job m with
+      | Ok (m', (bid', s')) => Nat.eqb bid bid' && sir_eqb s s' && run_dev m' r
+      | Error _ => false
+      end
+  | DMRet bid s ok out :: r =>
+      match dehb_mgr_on_result m bid s with
+      | Ok (m', out') => ok && opt_eqb tids_eqb out out' && run_dev m' r
+      | Error _ => negb ok && run_dev m r
+      end
+  | DMSize bid n :: r =>
+      match mgr_size_of_current_rung m bid with Ok n' => Nat.eqb n n' && run_dev m r | Error _ => false end
+  | DMTop bid pos t :: r =>
+      match top_of_previous_rung m bid pos with Ok t' => tid_eqb t t' && run_dev m r | Error _ => false end
+  | DMParent bid lv si t :: r =>
+      match trial_id_from_parent_slot m bid lv si with Ok t' => tid_eqb t t' && run_dev m r | Error _ => false end
+  | DMParentErr bid lv si :: r =>
+      match trial_id_from_parent_slot m bid lv si with Ok _ => false | Error _ => run_dev m r end
+  end.
+Definition dmgr_case := (rung_system * mode * option nat * list dev)%type.
+Definition chk_dmgr (c : dmgr_case) : bool :=
+  let '(first, md, nb, evs) := c in
+  match dehb_mgr_init first md nb with Ok m => run_dev m evs | Error _ => false end.
+
 (* scheduler events *)
 Definition sug_eqb (a b : suggestion) : bool :=
   match a, b with
@@ -68,7 +103,8 @@ Definition dec_eqb (a b : decision) : bool :=
   match a, b with CONTINUE, CONTINUE => true | PAUSE, PAUSE => true | STOP, STOP => true | _, _ => false end.
 Inductive sev :=
   | SSuggest (cfg_ok : bool) (out : suggestion) (bid : nat) (s : slot_in_rung)
-  | SResult (t : Z) (resource : Z) (v : mval) (ok : bool) (d : decision)
+  | SResult (t : Z) (resource : Z) (v : mval) (ok : bool) (d : decision) (to_searcher : bool)
+  | SPrev (bid : nat) (lv : Z) (prev : Z)
   | SErr (t : Z) (ok : bool)
   | SCollect (l : list tid).
 Fixpoint run_sev (st : shell) (evs : list sev) : bool :=
@@ -80,10 +116,15 @@ Fixpoint run_sev (st : shell) (evs : list sev) : bool :=
           Nat.eqb bid bid' && sir_eqb s s' && sug_eqb out out' && run_sev st' r
       | _, _ => false
       end
-  | SResult t res v ok d :: r =>
+  | SResult t res v ok d ts :: r =>
       match on_trial_result st t res v with
-      | Ok (st', d') => ok && dec_eqb d d' && run_sev st' r
+      | Ok (st', d', ts') => ok && dec_eqb d d' && Bool.eqb ts ts' && run_sev st' r
       | Error _ => negb ok && run_sev st r
+      end
+  | SPrev bid lv prev :: r =>
+      match level_to_prev_level (s_mgr st) bid lv with
+      | Ok p => Z.eqb p prev && run_sev st r
+      | Error _ => false
       end
   | SErr t ok :: r =>
       match on_trial_error st t with
@@ -324,6 +365,16 @@ class LogChecker:
         if msg:
             self.bad("DEHB bracket %d rung %d top list: %s" % (bid, k, msg), "promoted_not_best")
 
+    def expected_parent(self, bid, level, pos):
+        """documented contract of trial_id_from_parent_slot: same slot index and rung level in the largest
+        bracket < bid whose slot has a trial id; None if there is none"""
+        for j in range(bid - 1, -1, -1):
+            b = self.brackets[j]
+            for k, (size, lv) in enumerate(b["sys"]):
+                if lv == level and pos in b["rungs"].get(k, {}) and b["rungs"][k][pos][0] is not None:
+                    return b["rungs"][k][pos][0]
+        return None
+
     def pending_slots(self):
         res = set()
         for bid, b in enumerate(self.brackets):
@@ -492,7 +543,6 @@ def gen_mgr_spec(rng):
         # DEHB's bracket manager (dehb_bracket_manager.py) through the same next_job / on_result interface:
         # all brackets are suffixes of the first rung system; checked by the log checker only (not modelled)
         sp["dehb"] = dict(num_brackets=rng.choice([None, rng.randint(1, len(rss[0]))]))
-        sp["pbogus"] = 0.0
     return sp
 
 
@@ -506,7 +556,7 @@ def run_mgr(ctx, replay):
         return
     else:
         specs = [gen_mgr_spec(ctx.rng) for _ in range(ctx.n(140, 2500))]
-    cases, meta = [], []
+    cases, meta, dcases, dmeta = [], [], [], []
     for sp in specs:
         rng = _random.Random(sp["seed"])
         rss = [[tuple(x) for x in rs] for rs in sp["rss"]]
@@ -521,6 +571,9 @@ def run_mgr(ctx, replay):
             mgr = SynchronousHyperbandBracketManager(rss, sp["mode"])
             chk = LogChecker(rss, sp["mode"])
         outstanding, done_jobs, evs, log = [], [], [], []
+        reported = set()
+        first_rs = [tuple(x) for x in sp["rss"][0]]
+        NEXT, RET = ("DMNext", "DMRet") if dehb else ("MNext", "MRet")
         next_tid = 0
         nfail = 0
         blocked = None
@@ -557,7 +610,7 @@ def run_mgr(ctx, replay):
                     chk.on_result(bid, s, ret)
                     outstanding = [j for j in outstanding if not (j[0] == bid and j[1]["rung_index"] == s["rung_index"]
                                                                   and j[1]["slot_index"] == s["slot_index"])]
-                evs.append("MRet %s %s %s %s" % (natlit(bid), sirlit(s), blit(ok),
+                evs.append(RET + " %s %s %s %s" % (natlit(bid), sirlit(s), blit(ok),
                                                  optlit(None if ret is None else [int(t) for t in ret], tidlist)))
                 log.append(["bogus_" + kind, bid, dict(s, metric_val=jnum(s["metric_val"])), ok])
                 continue
@@ -573,8 +626,44 @@ def run_mgr(ctx, replay):
                     break
                 s = sir_dict(slot)
                 chk.on_next_job(int(bid), s)
-                evs.append("MNext %s %s" % (natlit(bid), sirlit(s)))
+                evs.append(NEXT + " %s %s" % (natlit(bid), sirlit(s)))
                 log.append(["next", int(bid), dict(s)])
+                if dehb:
+                    # what dehb.py asks the manager when it prepares this job
+                    try:
+                        sz = int(mgr.size_of_current_rung(bid))
+                    except Exception as e:
+                        blocked = "DEHB size_of_current_rung raised %s: %s" % (type(e).__name__, e)
+                        break
+                    evs.append("DMSize %s %s" % (natlit(bid), natlit(sz)))
+                    want = chk.expected_parent(bid, s["level"], s["slot_index"])
+                    nbo = len(rss)
+                    psig = dict(component="DifferentialEvolutionHyperbandBracketManager.trial_id_from_parent_slot",
+                                defect="parent_rung_bracket_delta_not_positive"
+                                if (bid % nbo == 0 and s["rung_index"] >= nbo) else "parent_slot_wrong")
+                    try:
+                        par = mgr.trial_id_from_parent_slot(bid, s["level"], s["slot_index"])
+                        par = None if par is None else int(par)
+                        evs.append("DMParent %s %s %s %s" % (natlit(bid), zlit(s["level"]), natlit(s["slot_index"]), tidlit(par)))
+                        if par != want and "parent" not in reported:
+                            reported.add("parent")
+                            ctx.violation("property", "DEHB bracket manager (%d brackets per iteration, %d rung levels): "
+                                          "trial_id_from_parent_slot(bracket %d, level %s, slot %d) = %s, but the slot with that "
+                                          "index and rung level in the closest earlier bracket holds trial %s" % (
+                                              nbo, len(rss[0]), bid, s["level"], s["slot_index"], par, want),
+                                          case=dict(kind="mgr", spec=sp), signature=psig)
+                    except (IndexError, KeyError, AssertionError) as e:
+                        evs.append("DMParentErr %s %s %s" % (natlit(bid), zlit(s["level"]), natlit(s["slot_index"])))
+                        if "parent" not in reported:
+                            reported.add("parent")
+                            ctx.violation("property", "DEHB bracket manager (%d brackets per iteration, %d rung levels): "
+                                          "trial_id_from_parent_slot(bracket %d, level %s, slot %d) raises %s: %s — preparing "
+                                          "the job fails, the request for work is not answered" % (
+                                              nbo, len(rss[0]), bid, s["level"], s["slot_index"], type(e).__name__, e),
+                                          case=dict(kind="mgr", spec=sp), signature=psig)
+                    if sz != rss[bid % len(rss)][s["rung_index"]][0]:
+                        chk.bad("DEHB size_of_current_rung(%d) = %d, configured %d" % (
+                            bid, sz, rss[bid % len(rss)][s["rung_index"]][0]), "wrong_rung_size")
                 if s["trial_id"] is None:
                     s["trial_id"] = next_tid
                     next_tid += 1
@@ -609,7 +698,10 @@ def run_mgr(ctx, replay):
                         break
                     chk.check_top_list(bid, s["rung_index"], top)
                 done_jobs.append((bid, s))
-                evs.append("MRet %s %s true %s" % (natlit(bid), sirlit(s), optlit(ret, tidlist)))
+                evs.append(RET + " %s %s true %s" % (natlit(bid), sirlit(s), optlit(ret, tidlist)))
+                if dehb and ret is not None and s["rung_index"] + 1 < len(rss[bid % len(rss)]):
+                    for p_, t_ in enumerate(top):
+                        evs.append("DMTop %s %s %s" % (natlit(bid), natlit(p_), tidlit(t_)))
                 log.append(["ret", bid, dict(s, metric_val=jnum(s["metric_val"])), ret])
         # every unanswered job must still be a pending slot of the checker, and nothing else
         exp = {(b, s["rung_index"], s["slot_index"]) for b, s in outstanding}
@@ -632,7 +724,16 @@ def run_mgr(ctx, replay):
             ctx.violation("property", "bracket manager log: " + msg, case=case,
                           signature=dict(component="SynchronousHyperbandBracketManager", defect=defect))
         if dehb:
-            continue      # DEHB's bracket variant is not modelled: log checker only
+            dcases.append("(%s, %s, %s, %s)" % (
+                lst(["(%s, %s)" % (natlit(a), zlit(b)) for a, b in first_rs]), modelit(sp["mode"]),
+                optlit(dehb["num_brackets"], natlit), lst(["\n   " + e for e in evs])))
+            dmeta.append(dict(kind="mgr", spec=sp, impl_log=log))
+            for e in evs:
+                k = e.split()[0]
+                if k in ("DMTop", "DMParent", "DMParentErr"):
+                    k += "_none" if e.rstrip().endswith("None") else "_trial"
+                ctx.h("dehb_events", k)
+            continue
         cases.append("(%s, %s, %s)" % (rsslit(rss), modelit(sp["mode"]), lst(["\n   " + e for e in evs])))
         meta.append(dict(kind="mgr", spec=sp, impl_log=log))
     if cases:
@@ -641,6 +742,12 @@ def run_mgr(ctx, replay):
             ctx.violation("correspondence", "model bracket manager differs from implementation on a next_job/on_result sequence",
                           case=meta[i], failing_input=False,
                           broken="correspondence chk_mgr (model/SyncHB.v next_job / mgr_on_result)")
+    if dcases:
+        for i in coq_bad(ctx, "dmgr", "chk_dmgr", dcases, shard=40):
+            ctx.violation("correspondence", "model DEHB bracket manager differs from implementation on a sequence",
+                          case=dmeta[i], failing_input=False,
+                          broken="correspondence chk_dmgr (model/SyncHB.v dehb_next_job / dehb_mgr_on_result / "
+                                 "top_of_previous_rung / trial_id_from_parent_slot)")
 
 
 # ------------------------------------------------------------------ scheduler sequences
@@ -730,6 +837,14 @@ def run_sched(ctx, replay):
         rss = [[(int(a), int(b)) for a, b in rs] for rs in sch.bracket_manager.bracket_rungs]
         rec = RecordingManager(sch.bracket_manager)
         sch.bracket_manager = rec
+        searcher_calls = []
+        if sch.searcher is not None:
+            _orig_otr = sch.searcher.on_trial_result
+
+            def _rec_otr(*a, _orig=_orig_otr, **k):
+                searcher_calls.append(1)
+                return _orig(*a, **k)
+            sch.searcher.on_trial_result = _rec_otr
         chk = LogChecker(rss, sp["mode"])
         fed = 0
 
@@ -761,7 +876,7 @@ def run_sched(ctx, replay):
                         ok = True
                     except AssertionError:
                         ok, dec = False, "STOP"
-                    evs.append("SResult %s %s %s %s %s" % (zlit(t), zlit(1), mval(0.5), blit(ok), dec))
+                    evs.append("SResult %s %s %s %s %s false" % (zlit(t), zlit(1), mval(0.5), blit(ok), dec))
                     log.append(["stale_result", t, dec])
                 else:
                     try:
@@ -822,6 +937,12 @@ def run_sched(ctx, replay):
                     broken = ("suggest", RuntimeError("config carries level %s, job says %s" % (running[t]["milestone"], s["level"])))
                     break
                 evs.append("SSuggest %s %s %s %s" % (blit(cfg_ok), out, natlit(bid), sirlit(s)))
+                try:
+                    prev = int(sch.bracket_manager.level_to_prev_level(bid, s["level"]))
+                except Exception as e:
+                    broken = ("level_to_prev_level", e)
+                    break
+                evs.append("SPrev %s %s %s" % (natlit(bid), zlit(s["level"]), zlit(prev)))
             else:
                 t = rng.choice(sorted(running))
                 info = running[t]
@@ -848,13 +969,14 @@ def run_sched(ctx, replay):
                 if not inter:
                     jb, js = info["job"]
                     chk.truth[(jb, js["rung_index"], js["slot_index"])] = v          # the value the harness reports
+                ncalls = len(searcher_calls)
                 try:
                     dec = sch.on_trial_result(trials[t], {"m": v, "epoch": res})
                 except Exception as e:
                     broken = ("on_trial_result", e)
                     break
                 feed()
-                evs.append("SResult %s %s %s true %s" % (zlit(t), zlit(res), mval(v), dec))
+                evs.append("SResult %s %s %s true %s %s" % (zlit(t), zlit(res), mval(v), dec, blit(len(searcher_calls) > ncalls)))
                 log.append(["result", t, res, jnum(v), dec])
                 want = "CONTINUE" if inter else "PAUSE"
                 if dec != want:
